@@ -66,6 +66,30 @@ type vio struct {
 	Case   interface{} `json:"case"`
 	Count  int64       `json:"count"`
 	Replay string      `json:"replay,omitempty"`
+	Exact  bool        `json:"exact,omitempty"` // replay mode: the recorded case itself failed again
+}
+
+// replayReq is a recorded violation to look for again (-replay <file>): the
+// same tier's enumeration is re-run from the current tree and only the
+// recorded signature is reported; Exact says whether the recorded case itself
+// (not merely another case of the same class) failed again.
+type replayReq struct {
+	Path string
+	Sig  string
+	Case string
+}
+
+func canonJSON(v interface{}) string {
+	a, err := json.Marshal(v)
+	if err != nil {
+		return ""
+	}
+	var x interface{}
+	if json.Unmarshal(a, &x) != nil {
+		return string(a)
+	}
+	b, _ := json.Marshal(x)
+	return string(b)
 }
 
 // Report collects what one run of one check covered and found.
@@ -90,6 +114,7 @@ type Report struct {
 	known       map[string]KnownFinding
 	knownSeen   map[string]int64
 	maxSamples  int
+	replay      *replayReq
 }
 
 // NewReport parses flags and starts a report for property id.
@@ -100,6 +125,24 @@ func NewReport(id, level, rule string) *Report {
 	r := &Report{ID: id, Tier: *FlagTier, Level: level, Rule: rule, start: time.Now(),
 		classes: map[string]int64{}, vios: map[string]*vio{}, Extra: map[string]interface{}{},
 		exhaustive: true, known: map[string]KnownFinding{}, knownSeen: map[string]int64{}, maxSamples: 6}
+	if *FlagReplay != "" {
+		data, err := os.ReadFile(*FlagReplay)
+		var f struct {
+			Property, Signature, Tier string
+			Case                      interface{}
+		}
+		if err == nil {
+			err = json.Unmarshal(data, &f)
+		}
+		if err != nil || f.Property != id || f.Signature == "" {
+			fmt.Fprintf(os.Stderr, "replay file %s: unusable for %s (%v)\n", *FlagReplay, id, err)
+			os.Exit(2)
+		}
+		r.replay = &replayReq{Path: *FlagReplay, Sig: f.Signature, Case: canonJSON(f.Case)}
+		if f.Tier == "quick" || f.Tier == "thorough" {
+			r.Tier = f.Tier
+		}
+	}
 	if r.Tier != "quick" && r.Tier != "thorough" {
 		fmt.Fprintf(os.Stderr, "bad tier %q\n", r.Tier)
 		os.Exit(2)
@@ -216,6 +259,22 @@ func (r *Report) AddInt(k string, n int64) {
 func (r *Report) Violation(sig, what string, c interface{}) {
 	r.mu.Lock()
 	defer r.mu.Unlock()
+	if r.replay != nil {
+		if sig != r.replay.Sig {
+			return
+		}
+		v := r.vios[sig]
+		if v == nil {
+			v = &vio{Sig: sig, What: what, Case: c}
+			r.vios[sig] = v
+			r.vioOrder = append(r.vioOrder, sig)
+		}
+		v.Count++
+		if !v.Exact && canonJSON(c) == r.replay.Case {
+			v.Exact, v.Case, v.What = true, c, what
+		}
+		return
+	}
 	if _, ok := r.known[sig]; ok {
 		r.knownSeen[sig]++
 		return
@@ -301,6 +360,9 @@ func (r *Report) RunWorkers(n int, extraArgs ...string) {
 		go func(k int) {
 			args := []string{"-tier", r.Tier, "-budget", time.Until(r.deadline).String(), "-worker", strconv.Itoa(k), "-nworkers", strconv.Itoa(n)}
 			args = append(args, extraArgs...)
+			if r.replay != nil {
+				args = append(args, "-replay", r.replay.Path)
+			}
 			// a worker that is still running three minutes after its own deadline is killed
 			ctx, cancel := context.WithTimeout(context.Background(), time.Until(r.deadline)+3*time.Minute)
 			cmd := exec.CommandContext(ctx, os.Args[0], args...)
@@ -346,6 +408,9 @@ func (r *Report) RunWorkers(n int, extraArgs ...string) {
 		for _, v := range p.Vios {
 			if cur := r.vios[v.Sig]; cur != nil {
 				cur.Count += v.Count
+				if v.Exact && !cur.Exact {
+					cur.Exact, cur.Case, cur.What = true, v.Case, v.What
+				}
 			} else {
 				r.vios[v.Sig] = v
 				r.vioOrder = append(r.vioOrder, v.Sig)
@@ -392,6 +457,18 @@ func (r *Report) Finish() {
 		r.emitPartial()
 	}
 	wall := time.Since(r.start).Seconds()
+	if r.replay != nil {
+		// a replay neither rewrites the evidence nor the replay files
+		v := r.vios[r.replay.Sig]
+		if v == nil {
+			fmt.Printf("REPLAY property=%s signature=%q not reproduced (%d evaluations, tier=%s, wall=%.1fs)\n", r.ID, r.replay.Sig, r.evals.Load(), r.Tier, wall)
+			os.Exit(0)
+		}
+		data, _ := json.MarshalIndent(v.Case, "", " ")
+		fmt.Printf("REPLAY property=%s signature=%q reproduced: recorded-case-failed-again=%v cases-with-this-signature=%d\n%s\ncase: %s\n", r.ID, v.Sig, v.Exact, v.Count, v.What, data)
+		fmt.Printf("VIOLATION property=%s replay=%s signature=%q count=%d :: %s\n", r.ID, r.replay.Path, v.Sig, v.Count, v.What)
+		os.Exit(1)
+	}
 	nontrivial := 0
 	for range r.classes {
 		nontrivial++
